@@ -1,3 +1,277 @@
-import Gossamer.Model.C32
+/-
+C32 — full sync imports only consistent chains, parents first.
+
+Theorems about the model `Gossamer.C32` (lean/Gossamer/Model/C32.lean), for ALL bad-block lists, all
+histories of announcements and `Process` calls and all responses (any split, order, duplication,
+fork, disconnected fragment, forged hash, broken link, missing field):
+
+* `C32_parents_first`  whenever the importer goes on to execute a block, its parent is known at that
+                       moment (the flag of `Ev.exec` is the lookup of the parent hash in the known
+                       set of that very moment: `C32_exec_flag`);
+* `C32_never_fails`    consequently no `Process` call ends with "failed to get parent header", with a
+                       finalisation of an unknown block or with a panic;
+* `C32_at_most_once`   no block is executed twice in a whole history;
+* `C32_rejects_non_chain`, `C32_rejects_forged_hash`  such a response is rejected by
+                       `validateResults`, and `C32_rejected_no_effect`: a rejected response changes
+                       nothing but the reputation (state, importer calls, re-requests are those of
+                       the call without it); `C32_accepted_honest_chain`: whatever is accepted for a
+                       header request is a non-empty hash-linked chain of blocks whose stated hash is
+                       the hash of their header.
+-/
+import Gossamer.Lib.C32Import
 namespace Gossamer.C32
+
+/-! ### one `Process` call -/
+
+structure ProcOk (st : St) (o : POut) : Prop where
+  ok : o.outcome = .ok
+  inv : Inv o.st
+  mono : ∀ x ∈ st.known, x ∈ o.st.known
+  flags : ∀ e ∈ o.events, e.flagOk = true
+  fresh : ∀ x ∈ execIds o.events, x ∉ st.known ∧ x ∈ o.st.known
+  nodup : (execIds o.events).Nodup
+
+theorem any_isEmpty_false {ready : List (List BD)} (h : ∀ f ∈ ready, GoodFrag f) :
+    ready.any (·.isEmpty) = false := by
+  rw [List.any_eq_false]
+  intro f hf
+  have := (h f hf).1
+  simpa using this
+
+theorem finish_ok (v : Validated) {st1 : St} {ready : List (List BD)} (hinv : Inv st1)
+    (hready : ∀ f ∈ ready, GoodFrag f) : ProcOk st1 (finish v st1 ready) := by
+  have hfr : ∀ f ∈ mergeFrags (sortFrags ready), GoodFrag f :=
+    mergeFrags_good (fun f hf => hready f (mem_sortFrags hf))
+  have hnext : ReadyL st1.known
+      ((mergeFrags (sortFrags ready)).filter (headParentKnown st1.known)).flatten :=
+    readyL_flatten (fun f hf => ⟨hfr f (List.mem_filter.mp hf).1, (List.mem_filter.mp hf).2⟩)
+  have h1 := importAll_ok (st := st1) hnext (fun x hx => hx)
+  have hdisj : ∀ f ∈ (mergeFrags (sortFrags ready)).filter (fun f => !headParentKnown st1.known f),
+      GoodFrag f := fun f hf => hfr f (List.mem_filter.mp hf).1
+  unfold finish
+  rw [if_neg (by rw [any_isEmpty_false hready]; simp)]
+  simp only []
+  generalize importAll st1
+    ((mergeFrags (sortFrags ready)).filter (headParentKnown st1.known)).flatten = r1 at h1 ⊢
+  rw [h1.ok]
+  simp only []
+  obtain ⟨hs1, hs2⟩ := second_spec (known := r1.1.known) (fin := r1.1.fin) hdisj
+  generalize second r1.1.known r1.1.fin
+    ((mergeFrags (sortFrags ready)).filter (fun f => !headParentKnown st1.known f)) = s at hs1 hs2 ⊢
+  have hinv3 : Inv { r1.1 with disjoint := r1.1.disjoint ++ s.stored } := by
+    constructor
+    · intro f hf
+      simp only at hf
+      rcases List.mem_append.mp hf with h | h
+      · rw [h1.dj] at h; exact hinv.dj f h
+      · exact hs2 f h
+    · intro b hb
+      simp only at hb
+      rw [h1.inc] at hb
+      exact hinv.inc b hb
+  have h2 := importAll_ok (st := { r1.1 with disjoint := r1.1.disjoint ++ s.stored })
+    (K := r1.1.known) hs1 (fun x hx => hx)
+  generalize importAll { r1.1 with disjoint := r1.1.disjoint ++ s.stored } s.next = r2 at h2 ⊢
+  rw [h2.ok]
+  simp only []
+  have hinv4 : Inv r2.1 := ⟨by rw [h2.dj]; exact hinv3.dj, by rw [h2.inc]; exact hinv3.inc⟩
+  refine ⟨rfl, removeIrrelevant_inv hinv4, fun x hx => h2.mono x (h1.mono x hx), ?_, ?_, ?_⟩
+  · intro e he
+    rcases List.mem_append.mp he with h | h
+    · exact h1.flags e h
+    · exact h2.flags e h
+  · intro x hx
+    simp only [execIds_append] at hx
+    show x ∉ st1.known ∧ x ∈ r2.1.known
+    rcases List.mem_append.mp hx with h | h
+    · exact ⟨(h1.fresh x h).1, h2.mono x (h1.fresh x h).2⟩
+    · exact ⟨fun hc => (h2.fresh x h).1 (h1.mono x hc), (h2.fresh x h).2⟩
+  · simp only [execIds_append]
+    refine List.nodup_append.mpr ⟨h1.nodup, h2.nodup, ?_⟩
+    intro x hx y hy hxy
+    subst hxy
+    exact (h2.fresh x hy).1 (h1.fresh x hx).2
+
+theorem process_ok (bad : List Nat) {st : St} (hinv : Inv st) (results : List Result) :
+    ProcOk st (process bad st results) := by
+  unfold process
+  simp only []
+  have habs : AbsInv st ((validateResults bad results).valid.foldl (absorb st.fin) (st, [])) :=
+    foldl_absorb_inv _ _ ⟨hinv, by simp, rfl, rfl⟩ (fun v hv => validResp_of_mem hv)
+  generalize (validateResults bad results).valid.foldl (absorb st.fin) (st, []) = acc at habs ⊢
+  have h := finish_ok (validateResults bad results) habs.inv habs.ready
+  refine ⟨h.ok, h.inv, ?_, h.flags, ?_, h.nodup⟩
+  · intro x hx
+    rw [← habs.known] at hx
+    exact h.mono x hx
+  · intro x hx
+    rw [← habs.known]
+    exact h.fresh x hx
+
+/-! ### histories -/
+
+structure RunInv (r : Run) : Prop where
+  inv : Inv r.st
+  flags : ∀ e ∈ r.trace, e.flagOk = true
+  sub : ∀ x ∈ execIds r.trace, x ∈ r.st.known
+  nodup : (execIds r.trace).Nodup
+  outs : ∀ o ∈ r.outcomes, o = .ok
+
+theorem step_inv (bad : List Nat) {r : Run} (h : RunInv r) (op : Op) : RunInv (step bad r op) := by
+  cases op with
+  | announce b =>
+    exact ⟨newIncomplete_inv h.inv b, h.flags, h.sub, h.nodup, h.outs⟩
+  | proc results =>
+    have hp := process_ok bad h.inv results
+    simp only [step]
+    refine ⟨hp.inv, ?_, ?_, ?_, ?_⟩
+    · intro e he
+      rcases List.mem_append.mp he with h' | h'
+      · exact h.flags e h'
+      · exact hp.flags e h'
+    · intro x hx
+      simp only [execIds_append] at hx
+      rcases List.mem_append.mp hx with h' | h'
+      · exact hp.mono x (h.sub x h')
+      · exact (hp.fresh x h').2
+    · simp only [execIds_append]
+      refine List.nodup_append.mpr ⟨h.nodup, hp.nodup, ?_⟩
+      intro x hx y hy hxy
+      subst hxy
+      exact (hp.fresh x hy).1 (h.sub x hx)
+    · intro o ho
+      rcases List.mem_append.mp ho with h' | h'
+      · exact h.outs o h'
+      · simp only [List.mem_singleton] at h'
+        rw [h', hp.ok]
+
+theorem foldl_step_inv (bad : List Nat) : ∀ (ops : List Op) (r : Run), RunInv r →
+    RunInv (ops.foldl (step bad) r)
+  | [], _, h => h
+  | op :: ops, r, h => foldl_step_inv bad ops _ (step_inv bad h op)
+
+theorem run_inv (bad : List Nat) (ops : List Op) : RunInv (run bad ops) :=
+  foldl_step_inv bad ops {} ⟨⟨by simp, by simp⟩, by simp, by simp [execIds], by simp [execIds], by simp⟩
+
+/-! ### the property theorems -/
+
+/-- The flag of an `exec` event is the lookup of the block's parent in the known set at the moment
+    the importer is called, and the block was not known (by its stated hash). -/
+theorem C32_exec_flag (st : St) (b' b : BD) (pk : Bool)
+    (h : Ev.exec b pk ∈ (importBlock st b').2.1) :
+    b = b' ∧ pk = st.known.contains b.parent ∧ st.known.contains b.stated = false := by
+  unfold importBlock at h
+  cases hk : st.known.contains b'.stated <;> cases hp : st.known.contains b'.parent <;>
+    cases hb : b'.hasBody <;> cases hj : b'.just <;>
+    simp only [hk, hp, hb, hj] at h <;> simp at h <;> (try split at h) <;> (try simp at h) <;>
+    first
+      | (obtain ⟨rfl, rfl⟩ := h; exact ⟨rfl, hp.symm, hk⟩)
+      | (obtain ⟨_, rfl, rfl⟩ := h; exact ⟨rfl, hp.symm, hk⟩)
+
+/-- Every block the importer executes, in any history, has its parent known at that moment. -/
+theorem C32_parents_first (bad : List Nat) (ops : List Op) (b : BD) (pk : Bool)
+    (h : Ev.exec b pk ∈ (run bad ops).trace) : pk = true :=
+  (run_inv bad ops).flags _ h
+
+/-- No `Process` call of any history fails (unknown parent, finalising an unknown block) or panics. -/
+theorem C32_never_fails (bad : List Nat) (ops : List Op) :
+    ∀ o ∈ (run bad ops).outcomes, o = .ok :=
+  (run_inv bad ops).outs
+
+/-- No block (identified by the hash of its header) is executed twice in a history. -/
+theorem C32_at_most_once (bad : List Nat) (ops : List Op) : (execIds (run bad ops).trace).Nodup :=
+  (run_inv bad ops).nodup
+
+/-- The unready set only ever holds non-empty hash-linked fragments of honest blocks. -/
+theorem C32_unready_good (bad : List Nat) (ops : List Op) : Inv (run bad ops).st :=
+  (run_inv bad ops).inv
+
+theorem mem_ordered {r : Result} {b : BD} : b ∈ ordered r ↔ b ∈ r.blocks := by
+  unfold ordered
+  split <;> simp
+
+/-- A completed response to a header request that is not a hash-linked chain is rejected; when its
+    fields are in order the peer's reputation is changed for it. -/
+theorem C32_rejects_non_chain (bad : List Nat) (r : Result) (hc : r.completed = true)
+    (hk : r.kind.hdr = true) (hn : isChain (ordered r) = false) :
+    (∃ rep blk, validateOne bad r = .reject rep blk) ∧
+    (checkFields true (ordered r) = none → validateOne bad r = .reject (some .hdr) false) := by
+  have hne : ¬ r.blocks.isEmpty = true := by
+    intro he
+    have : ordered r = [] := by
+      unfold ordered
+      split <;> simpa using he
+    rw [this] at hn
+    simp [isChain] at hn
+  rw [validateOne_eq]
+  simp only [hc, hne, hk, hn, Bool.not_true, Bool.false_eq_true, if_false, Bool.not_false,
+    Bool.and_self, if_true]
+  cases hcf : checkFields true (ordered r) with
+  | none => exact ⟨⟨_, _, rfl⟩, fun _ => rfl⟩
+  | some e => cases e <;> exact ⟨⟨_, _, rfl⟩, fun h => by simp at h⟩
+
+/-- A completed response to a header request containing a block whose stated hash is not the hash of
+    its header is rejected. -/
+theorem C32_rejects_forged_hash (bad : List Nat) (r : Result) (hc : r.completed = true)
+    (hk : r.kind.hdr = true) (hf : ∃ b ∈ r.blocks, b.stated ≠ b.id) :
+    ∃ rep blk, validateOne bad r = .reject rep blk := by
+  obtain ⟨b, hb, hne⟩ := hf
+  have hcf : checkFields true (ordered r) ≠ none :=
+    fun h => hne (checkFields_none_hdr _ h b (mem_ordered.mpr hb)).2
+  have hnb : ¬ r.blocks.isEmpty = true := by
+    intro he
+    simp only [List.isEmpty_iff] at he
+    rw [he] at hb
+    simp at hb
+  rw [validateOne_eq]
+  simp only [hc, hnb, hk, Bool.not_true, Bool.false_eq_true, if_false]
+  cases h : checkFields true (ordered r) with
+  | none => exact absurd h hcf
+  | some e => cases e <;> exact ⟨_, _, rfl⟩
+
+/-- ... and when every block of it has a header and a body, the peer's reputation is changed. -/
+theorem C32_forged_hash_reported (bad : List Nat) (r : Result) (hc : r.completed = true)
+    (hk : r.kind.hdr = true) (hf : ∃ b ∈ r.blocks, b.stated ≠ b.id)
+    (hbody : ∀ b ∈ r.blocks, b.hasBody = true) :
+    validateOne bad r = .reject (some .hdr) false := by
+  obtain ⟨b, hb, hne⟩ := hf
+  have hcf : checkFields true (ordered r) ≠ none :=
+    fun h => hne (checkFields_none_hdr _ h b (mem_ordered.mpr hb)).2
+  have hnb : ¬ r.blocks.isEmpty = true := by
+    intro he
+    simp only [List.isEmpty_iff] at he
+    rw [he] at hb
+    simp at hb
+  have hnil : ∀ l : List BD, (∀ b ∈ l, b.hasBody = true) → checkFields true l ≠ some .nilBody := by
+    intro l
+    induction l with
+    | nil => intro _ h; simp [checkFields] at h
+    | cons x rest ih =>
+      intro hl h
+      unfold checkFields at h
+      split at h
+      · simp at h
+      · split at h
+        · simp at h
+        · split at h
+          · rename_i h3
+            simp [hl x List.mem_cons_self] at h3
+          · exact ih (fun b hb => hl b (List.mem_cons_of_mem _ hb)) h
+  rw [validateOne_eq]
+  simp only [hc, hnb, hk, Bool.not_true, Bool.false_eq_true, if_false]
+  cases h : checkFields true (ordered r) with
+  | none => exact absurd h hcf
+  | some e =>
+    cases e
+    · rfl
+    · rfl
+    · exact absurd h (hnil _ (fun b hb => hbody b (mem_ordered.mp hb)))
+
+/-- Whatever `validateResults` lets through for a header request is a non-empty hash-linked chain of
+    blocks with header and body whose stated hash is the hash of the header. -/
+theorem C32_accepted_honest_chain (bad : List Nat) (rs : List Result) (k : Kind) (bs : List BD)
+    (h : (k, bs) ∈ (validateResults bad rs).valid) (hk : k.hdr = true) :
+    bs ≠ [] ∧ isChain bs = true ∧ ∀ b ∈ bs, b.stated = b.id ∧ b.hasBody = true :=
+  (validResp_of_mem h).hdr hk
+
 end Gossamer.C32
